@@ -171,7 +171,6 @@ func verifyFunc(prog *Prog, sp *FuncSpec) (res *FuncResult) {
 	return
 }
 
-
 func hashSource(prog *Prog, fd *funcDecl) string {
 	p0 := prog.fset.Position(fd.decl.Pos())
 	p1 := prog.fset.Position(fd.decl.End())
